@@ -99,7 +99,8 @@ def run(tier, seed):
     res.rule = ("random/boundary states in three registers x coefficient arrays (8-bit variants: entries < 256); states include "
                 "0x5555555555555555 with coefficient 3 so that several addends of one lane are in [p,2^64); non-trivial = at "
                 "least one lane product whose low 64 bits are in the non-canonical band")
-    res.assumptions = ["intrinsic semantics of Isa/Avx2.lean incl. permute2f128/unpack (executed against this CPU in this run)",
+    res.assumptions = ["register operands are values in the model; the in-place call patterns f(x, x, b) / f(x, a, x) (output register object = an input register object) are exercised on the implementation side (variants __ra<o>_<k>), not proved",
+                       "intrinsic semantics of Isa/Avx2.lean incl. permute2f128/unpack (executed against this CPU in this run)",
                        "aligned variants are given 64-byte aligned buffers by the harness"]
     st = run_gen()
     standard_proof_phase(res, MODULE, PREFIX, st, ["Scalar", "Avx2", GENMOD], thorough=(tier == "thorough"))
@@ -119,5 +120,5 @@ def run(tier, seed):
             res.broken.append(("harness build (%s)" % fl, err))
             continue
         if drv:
-            corr_campaign(res, h, drv, make_cases(seed + len(fl), n if fl != "asan" else n // 10, names, T), fl)
+            corr_campaign(res, h, drv, with_reg_alias(make_cases(seed + len(fl), n if fl != "asan" else n // 10, names, T), st), fl)
     return res.finish()
